@@ -23,6 +23,9 @@ def oracle(case, res, docopts):
         return ['plan --json printed no JSON envelope']
     # determinism / order independence
     for i, p in enumerate(plans[1:], 1):
+        if p[0] == 'err' and p0[0] == 'err' and p[1] != p0[1] and 'E_DESIRED_STATE_CONFLICT' not in (p[1], p0[1]):
+            continue    # a configuration that is invalid in two ways: WHICH refusal is reported first may follow the manifest order;
+                        # the property speaks about the desired state (there is none) and about E_DESIRED_STATE_CONFLICT only
         if p[:2] != p0[:2]:
             bad.append('plan differs between module/file orders (perm 0 vs perm %d): %r vs %r' % (i, p0[:2], p[:2]))
     if p0[0] == 'ok':
